@@ -23,9 +23,18 @@ root = tempfile.mkdtemp(prefix='sv_c12_')
 out = {}
 
 
-def one_run(sp, b, d, whitelist, keep=False):
+_kept = {}
+
+
+def one_run(sp, b, d, whitelist, keep=False, reuse=None):
     try:
-        api = specs_to_ir(sp, route_whitelist_filter=whitelist) if whitelist else specs_to_ir(sp)
+        if reuse is not None and reuse in _kept:
+            api = _kept[reuse]      # the API description an earlier step compiled, handed to another backend run
+        else:
+            api = specs_to_ir(sp, route_whitelist_filter=whitelist) if whitelist else specs_to_ir(sp)
+            if reuse is not None:
+                _kept.clear()
+                _kept[reuse] = api
         backends.run_backend(b, api, d)
         files = backends.read_tree(d, skip=set(backends.CONFIGS[b][2]))
         res = {k: hashlib.blake2b(v, digest_size=8).hexdigest() for k, v in files.items()}
@@ -42,10 +51,14 @@ if 'script' in job:
     # a history: steps (spec index, backend, directory, use whitelist) executed in this one process
     steps = []
     try:
-        for i, (si, b, dirname, use_wl) in enumerate(job['script']):
+        for i, step in enumerate(job['script']):
+            si, b, dirname, use_wl = step[:4]
+            keep_api = len(step) > 4 and step[4]
             sp = [tuple(x) for x in job['spec_sets'][si]]
             steps.append(one_run(sp, b, os.path.join(root, 'step%d' % i, dirname), wl if use_wl else None,
-                                 keep=job.get('keep_step') == i))
+                                 keep=job.get('keep_step') == i, reuse=(si, bool(use_wl)) if keep_api else None))
+            if not keep_api:
+                _kept.clear()
             # the API description of a finished step is garbage: let the collector run, as it would
             # at some point in a long-lived build process
             gc.collect()
